@@ -9,6 +9,7 @@ import (
 	"encoding/asn1"
 	"fmt"
 	"math/big"
+	"net"
 	"sync"
 	"time"
 )
@@ -80,7 +81,14 @@ func leafCert(kind string, padBytes int, names ...string) tls.Certificate {
 	k := seedKey("leaf:" + key)
 	h := sha256.Sum256([]byte(key))
 	tmpl := &x509.Certificate{SerialNumber: new(big.Int).SetBytes(h[:8]), Subject: pkix.Name{CommonName: names[0]}, NotBefore: notBefore, NotAfter: notAfter,
-		KeyUsage: x509.KeyUsageDigitalSignature, ExtKeyUsage: []x509.ExtKeyUsage{x509.ExtKeyUsageServerAuth, x509.ExtKeyUsageClientAuth}, DNSNames: names}
+		KeyUsage: x509.KeyUsageDigitalSignature, ExtKeyUsage: []x509.ExtKeyUsage{x509.ExtKeyUsageServerAuth, x509.ExtKeyUsageClientAuth}}
+	for _, n := range names {
+		if ip := net.ParseIP(n); ip != nil {
+			tmpl.IPAddresses = append(tmpl.IPAddresses, ip)
+		} else {
+			tmpl.DNSNames = append(tmpl.DNSNames, n)
+		}
+	}
 	if padBytes > 0 {
 		pad := make([]byte, padBytes)
 		for i := range pad {
